@@ -24,7 +24,10 @@ def sh(cmd, cwd=None, timeout=3600):
 
 def demo(scratch, democpp, exe):
     inc = " ".join(f"-I{scratch}/{d}/include" for d in sorted(os.listdir(scratch)) if os.path.isdir(f"{scratch}/{d}/include"))
-    rc, out = sh(f"g++ -std=c++17 -O1 {inc} {democpp} -o {exe}")
+    # extra flags (-D..., -fsanitize=..., -pthread) from the compile command the author put at the top of the demo
+    head = "".join(open(democpp, errors="replace").readlines()[:25])
+    extra = " ".join(sorted(set(re.findall(r"(?<![\w/])(-D[\w=]+|-fsanitize=[\w,]+|-fno-sanitize[\w=,-]*|-pthread|-g)\b", head))))
+    rc, out = sh(f"g++ -std=c++17 -O1 {extra} {inc} {democpp} -o {exe}")
     if rc != 0:
         return None, "compile failed: " + out[-800:]
     try:
